@@ -14,22 +14,30 @@ def call_argument_mismatch(mir):
     funs = {f["id"]: f for f in mir["functions"]}
     for t in tables:
         for op in t.values():
-            c = op.get("NadaFunctionCall") if isinstance(op, dict) else None
-            if not c or c["function_id"] not in funs:
+            if not isinstance(op, dict):
                 continue
-            params = funs[c["function_id"]]["args"]
-            for a, prm in zip(c["args"], params):
-                src = t.get(str(a)) or t.get(a)
+            c = op.get("NadaFunctionCall")
+            if c and c["function_id"] in funs:
+                params = funs[c["function_id"]]["args"]
+                for a, prm in zip(c["args"], params):
+                    src = t.get(str(a)) or t.get(a)
+                    if src:
+                        (_, body), = src.items()
+                        if body.get("type") != prm["type"]:
+                            return True
+            r = op.get("Reduce")
+            if r and r["fn"] in funs and len(funs[r["fn"]]["args"]) == 2:
+                src = t.get(str(r["initial"])) or t.get(r["initial"])
                 if src:
                     (_, body), = src.items()
-                    if body.get("type") != prm["type"]:
+                    if body.get("type") != funs[r["fn"]]["args"][0]["type"]:
                         return True
     return False
 
 
 def key_of(prog, mir):
     shapes = mp.scan_types(mir)
-    if not shapes and "untruthful-annotation" in (prog.get("tags") or []) and call_argument_mismatch(mir):
+    if not shapes and set(prog.get("tags") or []) & {"untruthful-annotation", "reduce-public-seed"} and call_argument_mismatch(mir):
         return "C05/edge:call-argument-type-differs-from-parameter"
     if mp.captures_enclosing_param(prog["stmts"]) and not shapes:
         return "C05/scope:param-of-enclosing-fn"
